@@ -268,7 +268,8 @@ class CGLS(object):
             
     def solve(self):
         # initial state
-        x = self.x0.copy()
+        # copy of the start vector in (at least) double precision: an integer or float32 x0 must not fix the dtype of the iterate
+        x = self.x0.astype(np.result_type(self.x0.dtype, np.float64))
         if self.explicitA:
             r = self.b - (self.A @ x)
             s = (self.A.T @ r) - self.shift*x
@@ -377,7 +378,8 @@ class PCGLS:
 
     def solve(self):
         # initial state
-        x = self._x0.copy()
+        # copy of the start vector in (at least) double precision: an integer or float32 x0 must not fix the dtype of the iterate
+        x = self._x0.astype(np.result_type(self._x0.dtype, np.float64))
         r = self._b - self._apply_A(x, 1)
         s = self._apply_Pinv(self._apply_A(r, 2), 2)
         p = s.copy()
